@@ -19,45 +19,6 @@ theorem take_filterMap_prefix (c : Cfg) (g : Nat) : (c.src.take g).filterMap c.f
   rw [List.filterMap_append]
   exact List.prefix_append _ _
 
-theorem sum_zero_all {α : Type} (g : α → Nat) : ∀ (l : List α), (l.map g).sum = 0 → ∀ p ∈ l, g p = 0
-  | [], _, p, hp => by simp at hp
-  | a :: l, h, p, hp => by
-    simp at h hp
-    rcases hp with rfl | hp
-    · exact h.1
-    · exact sum_zero_all g l h.2 p hp
-
-theorem sum_all_zero {α : Type} (g : α → Nat) : ∀ (l : List α), (∀ p ∈ l, g p = 0) → (l.map g).sum = 0
-  | [], _ => by simp
-  | a :: l, h => by
-    simp
-    exact ⟨h a (by simp), sum_all_zero g l (fun p hp => h p (by simp [hp]))⟩
-
-/-- Nothing is in flight: every index pulled so far has been processed by the consumer exactly once. -/
-theorem drained (h : Inv c s) (hheld : held s = 0) (hhand : s.cpc.hand = none) (hlost : s.lost = []) :
-    ∀ k, s.got.count k = if k < s.pulled then 1 else 0 := by
-  intro k
-  have h1 := h.cnt k
-  simp only [held] at hheld
-  have hinq : s.inq = [] := List.eq_nil_of_length_eq_zero (by omega)
-  have hmid : s.mid = [] := List.eq_nil_of_length_eq_zero (by omega)
-  have hbuf : s.buf = [] := List.eq_nil_of_length_eq_zero (by omega)
-  have hsq : s.sq = [] := List.eq_nil_of_length_eq_zero (by omega)
-  have hr : s.rpc.hand = none := by
-    have : s.rpc.holds = 0 := by omega
-    cases hh : s.rpc <;> simp [hh, RPc.holds, RPc.hand] at this ⊢
-  have hsp : s.spc.hand = none := by
-    have : s.spc.holds = 0 := by omega
-    cases hh : s.spc <;> simp [hh, SPc.holds, SPc.hand] at this ⊢
-  have hw : (s.wk.map (WPc.cnt k)).sum = 0 := by
-    apply sum_all_zero
-    intro p hp
-    have : (s.wk.map WPc.holds).sum = 0 := by omega
-    have := sum_zero_all WPc.holds s.wk this p hp
-    cases p <;> simp [WPc.holds, WPc.cnt, WPc.hand] at this ⊢
-  simp only [cnt, hinq, hmid, hbuf, hsq, hr, hsp, hw, hhand, hlost] at h1
-  simpa using h1
-
 theorem got_nodup (h : Inv c s) : s.got.Nodup := by
   apply nodup_of_count_le_one
   intro k
@@ -66,25 +27,33 @@ theorem got_nodup (h : Inv c s) : s.got.Nodup := by
   simp only [cnt] at h1
   omega
 
-/-- State at (and after) a natural end of stream. -/
-theorem at_stop (h : Inv c s) (hn : 0 < s.nstop) :
-    c.term = .stop ∧ held s = 0 ∧ s.lost = [] ∧ s.pulled = c.src.length + 1 ∧
-    ∀ k, s.got.count k = if k < c.src.length + 1 then 1 else 0 := by
-  have hf := h.fin (Or.inr (Or.inr (Or.inl hn)))
+/-- State at (and after) an end of stream reported by `next()`, when no worker has died: nothing is in flight and every
+index — including the terminal — was consumed exactly once. -/
+theorem at_stop (h : Inv c s) (hn : 0 < s.nstop) (hnd : deadCount s = 0) :
+    s.sem = c.max ∧ (s.done = true ∨ (c.term = .error ∧ c.src.length ∈ s.got)) ∧ held s = 0 ∧ s.lost = [] ∧
+    s.pulled = c.src.length + 1 ∧ ∀ k, s.got.count k = if k < c.src.length + 1 then 1 else 0 := by
+  have hf : s.sem = c.max ∧ (s.done = true ∨ (c.term = .error ∧ c.src.length ∈ s.got)) := by
+    rcases h.fin (Or.inr (Or.inr (Or.inl hn))) with hd | hd
+    · omega
+    · exact hd
   have hst := h.nstopStop hn
   have hp := h.permits
   have hheld : held s = 0 := by omega
   have hlost : s.lost = [] := List.eq_nil_of_length_eq_zero (by omega)
   have hhand : s.cpc.hand = none := by
-    rcases h.stopC hst with h1 | h1 | h1 | h1 | h1 <;> simp [h1, CPc.hand]
-  have hpull := done_pulled h hf.1
-  refine ⟨(h.doneI hf.1).1, hheld, hlost, hpull, ?_⟩
+    rcases h.stopC hst with h1 | h1 | h1 | h1 | h1 | h1 <;> simp [h1, CPc.hand]
+  have hpull : s.pulled = c.src.length + 1 := by
+    rcases hf.2 with hd | ⟨_, hg⟩
+    · exact done_pulled h hd
+    · exact end_pulled h hg
+  refine ⟨hf.1, hf.2, hheld, hlost, hpull, ?_⟩
   intro k
   rw [← hpull]
   exact drained h hheld hhand hlost k
 
-theorem got_perm_at_stop (h : Inv c s) (hn : 0 < s.nstop) : s.got.Perm (List.range (c.src.length + 1)) := by
-  obtain ⟨_, _, _, _, hc⟩ := at_stop h hn
+theorem got_perm_at_stop (h : Inv c s) (hn : 0 < s.nstop) (hnd : deadCount s = 0) :
+    s.got.Perm (List.range (c.src.length + 1)) := by
+  obtain ⟨_, _, _, _, _, hc⟩ := at_stop h hn hnd
   rw [List.perm_ext_iff_of_nodup (got_nodup h) List.nodup_range]
   intro a
   have := hc a
@@ -111,5 +80,105 @@ theorem buf_ge_cur (h : Inv c s) (hio : c.inOrder = true) : ∀ m ∈ s.buf, s.c
   simp only [cnt] at h1
   have : (if m.idx < s.pulled then 1 else 0) ≤ 1 := by split <;> omega
   split at h2 <;> omega
+
+theorem le_sum_of_mem {α : Type} (g : α → Nat) : ∀ (l : List α) (p : α), p ∈ l → g p ≤ (l.map g).sum
+  | [], p, hp => by simp at hp
+  | a :: l, p, hp => by
+    simp at hp ⊢
+    rcases hp with rfl | hp
+    · omega
+    · have := le_sum_of_mem g l p hp; omega
+
+theorem exists_dead_of_deadCount (h : 0 < deadCount s) : WPc.dead ∈ s.wk := by
+  unfold deadCount at h
+  apply Classical.byContradiction
+  intro hn
+  have := sum_all_zero WPc.deadN s.wk (fun p hp => by
+    cases p <;> simp [WPc.deadN]
+    exact hn hp)
+  omega
+
+theorem deadCount_zero_iff : deadCount s = 0 ↔ ∀ p ∈ s.wk, p ≠ WPc.dead := by
+  constructor
+  · intro h0 p hp hd
+    subst hd
+    have := deadCount_pos_of_mem hp
+    omega
+  · intro hall
+    unfold deadCount
+    apply sum_all_zero
+    intro p hp
+    have := hall p hp
+    cases p <;> simp [WPc.deadN] at this ⊢
+
+theorem length_filterMap_lt {α β : Type} (f : α → Option β) : ∀ (l : List α) (x : α), x ∈ l → f x = none →
+    (l.filterMap f).length < l.length
+  | [], x, hx, _ => by simp at hx
+  | a :: l, x, hx, hf => by
+    have hle : (l.filterMap f).length ≤ l.length := List.length_filterMap_le f l
+    rw [List.filterMap_cons, List.length_cons]
+    rcases List.mem_cons.mp hx with rfl | hx
+    · rw [hf]; show (l.filterMap f).length < l.length + 1; omega
+    · have ih := length_filterMap_lt f l x hx hf
+      cases f a with
+      | none => show (l.filterMap f).length < l.length + 1; omega
+      | some b => show (b :: l.filterMap f).length < l.length + 1; rw [List.length_cons]; omega
+
+/-- If every index handed out so far has been completely processed by the consumer, nothing is anywhere else. -/
+theorem all_in_got_drained (h : Inv c s) (hall : ∀ k, k < s.pulled → s.got.count k = 1) :
+    held s = 0 ∧ s.cpc.hand = none ∧ s.lost = [] := by
+  -- an index that is anywhere besides `got` would be counted twice (or is not below `pulled` at all)
+  have key : ∀ k, cnt k s ≤ s.got.count k := by
+    intro k
+    have h1 := h.cnt k
+    by_cases hk : k < s.pulled
+    · have := hall k hk; simp [hk] at h1; omega
+    · simp [hk] at h1; omega
+  have hinq : s.inq = [] := by
+    cases hq : s.inq with
+    | nil => rfl
+    | cons m r => have := key m.idx; simp [cnt, hq, List.count_cons] at this; omega
+  have hmid : s.mid = [] := by
+    cases hq : s.mid with
+    | nil => rfl
+    | cons m r => have := key m.idx; simp [cnt, hq, List.count_cons] at this; omega
+  have hbuf : s.buf = [] := by
+    cases hq : s.buf with
+    | nil => rfl
+    | cons m r => have := key m.idx; simp [cnt, hq, List.count_cons] at this; omega
+  have hsq : s.sq = [] := by
+    cases hq : s.sq with
+    | nil => rfl
+    | cons m r => have := key m.idx; simp [cnt, hq, List.count_cons] at this; omega
+  have hlost : s.lost = [] := by
+    cases hq : s.lost with
+    | nil => rfl
+    | cons k r => have := key k; simp [cnt, hq, List.count_cons] at this; omega
+  have hch : s.cpc.hand = none := by
+    cases hq : s.cpc.hand with
+    | none => rfl
+    | some k => have := key k; simp [cnt, hq] at this; omega
+  have hr : s.rpc.holds = 0 := by
+    cases hq : s.rpc with
+    | app v i => have := key i; simp [cnt, hq, RPc.hand] at this; omega
+    | put m => have := key m.idx; simp [cnt, hq, RPc.hand] at this; omega
+    | _ => rfl
+  have hsp : s.spc.holds = 0 := by
+    cases hq : s.spc with
+    | «have» m => have := key m.idx; simp [cnt, hq, SPc.hand] at this; omega
+    | _ => rfl
+  have hw : (s.wk.map WPc.holds).sum = 0 := by
+    apply sum_all_zero
+    intro p hp
+    cases p with
+    | «have» m =>
+      have h1 := key m.idx
+      have h2 := le_sum_of_mem (WPc.cnt m.idx) s.wk _ hp
+      simp [WPc.cnt, WPc.hand] at h2
+      simp only [cnt] at h1
+      omega
+    | _ => rfl
+  refine ⟨?_, hch, hlost⟩
+  simp [held, hinq, hmid, hbuf, hsq, hr, hsp, hw]
 
 end TDV.PM
